@@ -357,6 +357,8 @@ func (c *compiler) evalUpdateIndex(left, index, value interface{}) error {
 					if elemType != t {
 						err = fmt.Errorf("cannot use '%v' (untyped %s constant) as %s value in assignment", value, t, elemType)
 					}
+				} else if t := reflect.TypeOf(value); !t.AssignableTo(elemType) {
+					err = fmt.Errorf("cannot use '%v' (%s) as %s value in assignment", value, t, elemType)
 				}
 				if err == nil {
 					rv.Index(i).Set(reflect.ValueOf(value))
@@ -387,6 +389,9 @@ func (c *compiler) evalAccessIndex(left, index interface{}, node *ast.IndexExpre
 			(keyType != mapKeyType || !reflect.TypeOf(index).AssignableTo(reflect.TypeOf(left).Key())) {
 			err = fmt.Errorf("cannot use %v (%s constant) as %s value in map index", index, keyType.String(), mapKeyType.String())
 			return nil, err
+		}
+		if mapKeyType == reflect.Interface && !reflect.TypeOf(index).AssignableTo(reflect.TypeOf(left).Key()) {
+			return nil, fmt.Errorf("cannot use %v (%T) as %s value in map index", index, index, reflect.TypeOf(left).Key())
 		}
 
 		val := rv.MapIndex(reflect.ValueOf(index))
@@ -581,6 +586,8 @@ func (c *compiler) arrayOperator(l interface{}, r interface{}, op string) (inter
 			if elemType != t {
 				err = fmt.Errorf("cannot append '%v' (untyped %s constant) as %s value in assignment", r, t, elemType)
 			}
+		} else if t := reflect.TypeOf(r); !t.AssignableTo(elemType) {
+			err = fmt.Errorf("cannot append '%v' (%s) as %s value in assignment", r, t, elemType)
 		}
 		if err == nil {
 			return reflect.Append(reflect.ValueOf(l), reflect.ValueOf(r)), nil
